@@ -1,5 +1,6 @@
 // Engine A: ST::string construction and mutation (C04, C18, C19).
 #include "textarg.h"
+#include <filesystem>
 
 namespace A {
 
@@ -410,6 +411,44 @@ bool exec_str_a(Ctx &c, const Op &op) {
             if (valid) dst->model += add; else dst->st = M_ADOPT;
             dst->moved_from = false;
         }
+        return true;
+    }
+    case S_PATH: {
+        // std::filesystem::path in and out: construct / assign / set / from_path, to_path, stream insertion, formatting
+        StrObj *dst = pick(v, op.a);
+        if (!dst) { c.skipped = true; return true; }
+        unsigned form = op.d % 7;
+        std::string text = take_units<char>(c, op.b, op.c); text = text.substr(0, text.find('\0'));
+        std::filesystem::path path(std::u8string((const char8_t *)text.data(), text.size()));
+        note_sig(c, op, std::string("form=") + std::to_string(form) + ",dst=" + cl(dst) + ",in=" + cls_letter(text.size(), 16));
+        c.budget_bytes = (text.size() + dst->model.size()) * 6 + 64;
+        if (dst->moved_from) c.touched_moved_from = true;
+        if (form <= 2) { as_target(dst); note_mutating(c, dst); } else as_const(dst);
+        bool ok = true; std::string got; void *mem = nullptr; SsObj *ss = nullptr;
+        if (form == 5) { ss = pick(c.sss, op.a); if (!ss) { c.skipped = true; return true; } as_target(ss); }
+        if (form == 3 || form == 6) { make_room(c, dst); mem = obj_alloc(sizeof(ST::string)); }
+        ExcKind ex = run_sut(c, op, [&] {
+            ST::string &d = *dst->p();
+            switch (form) {
+            case 0: { ST::string tmp(path); d = std::move(tmp); break; }
+            case 1: d = path; break;
+            case 2: d.set(path); break;
+            case 3: new (mem) ST::string(ST::string::from_path(path)); break;
+            case 4: { std::filesystem::path out = d.to_path(); auto u = out.u8string(); got.assign((const char *)u.data(), u.size()); break; }
+            case 5: *ss->p() << path; break;
+            default: new (mem) ST::string(ST::format("<{}>", path)); break;
+            }
+        });
+        if (settle(c, op, ex, 0)) {
+            switch (form) {
+            case 0: case 1: case 2: dst->model = text; dst->moved_from = false; break;
+            case 3: { StrObj *o = add_str(c, mem); o->role = ROLE_NEW; o->model = text; break; }
+            case 4: ok = got == dst->model; break;
+            case 5: ss->model += text; if (ss->model.size() > ss->cap) { size_t n = ss->cap; while (ss->model.size() > n) n *= 2; ss->cap = n; } ss->moved_from = false; break;
+            default: { StrObj *o = add_str(c, mem); o->role = ROLE_NEW; o->model = "<" + text + ">"; break; }
+            }
+            if (!ok) set_viol(c, "value_mismatch", "to_path() does not hold the string's bytes");
+        } else if (mem) obj_free(mem);
         return true;
     }
     case S_SELF_ALIAS: {
